@@ -20,6 +20,8 @@ class VerifyMixin(object):
             v = fresh(ty, name)
             st.assume(*wf(v))
             st.env[name] = v
+            if isinstance(ty, (List, Set, Map)) and name in c.params:
+                st.alias[name] = ("param", name)     # mutations in place are visible to the caller
         return st
 
     def verify_unit(self, c):
@@ -88,6 +90,8 @@ class VerifyMixin(object):
         st.env = dict(st.env)
         st.env["result"] = res
         st.old = old
+        for name, (ty, expr) in c.ghost_final.items():
+            st.env[name] = self.adapt(self.spec(expr, st), ty)
         return st
 
     def check_post(self, c, o, old):
